@@ -524,6 +524,175 @@ def run_tenants(chk, n):
     stratum_built(chk, DOM_PRIO, "plain", max(20, n // 3), True, "built-store-dom_prio")
 
 
+# ----------------------------------------------------------------------------- unusual tenant names, matcher phases
+# (1) A tenant is whatever string stands in the domain column: the EMPTY string and a name that looks like a pattern ("*",
+# "d*") are tenants like any other.  (2) A domain matching function may be registered, replaced and taken away again in
+# the middle of a history (add_named_domain_matching_func("g", fn | None)).  While a function fn is registered and
+# fn(D, F) holds, what is recorded for F legitimately applies in D (that sentence is C14's) and D's queries are not
+# judged here; in every other phase - no function, or a function that does not relate D to F (in particular: F is a
+# concrete domain and D is the tenant literally called "*") - the isolation spec applies in full: EVERY query of D answers
+# exactly like an enforcer that was given D's records only (same registrations, same calls of D, none of F's).
+# D's own records also change in the middle (calls naming D only); calls and queries that take the domain as a FILTER
+# value (remove_filtered_*, delete_roles_for_user_in_domain, get_permissions_for_user_in_domain,
+# get_implicit_permissions_for_user) are left out for the tenant "" because the API documents "" as "any value" there.
+NAME_PAIRS = [("", "d1"), ("*", "d1"), ("", "*"), ("d1", "d2"), ("d*", "d1"), ("d", "d1"), ("", "d1"), ("*", "d2")]
+for _a, _b in NAME_PAIRS:
+    A(_a), A(_b)
+FILTER_CALLS = (5, 8, 20)
+FILTER_QUERIES = (61, 70)
+
+
+def name_probe(kind, uni, D, all_roles=True):
+    ops = [o for o in d_probe(kind, uni, D) if not (D == 0 and o[0] in FILTER_QUERIES)]
+    return ops + ([(72, D)] if all_roles else [])
+
+
+def rule_tenant(kind, pt, r):
+    i = kind.i_dom if pt == 0 else 2
+    return r[i] if len(r) > i else None
+
+
+def op_tenant(kind, op):
+    """the one tenant a management call names (None: several / unknown)"""
+    c = op[0]
+    ts = None
+    if c in (1, 3):
+        ts = {rule_tenant(kind, op[1], op[2])}
+    elif c in (2, 4):
+        ts = {rule_tenant(kind, op[1], r) for r in op[2]}
+    elif c == 6:
+        ts = {rule_tenant(kind, 0, op[1]), rule_tenant(kind, 0, op[2])}
+    elif c == 7:
+        ts = {rule_tenant(kind, 0, r) for r in list(op[1]) + list(op[2])}
+    elif c in (13, 14):
+        ts = {rule_tenant(kind, 0, [op[1]] + list(op[2]))}
+    elif c in (19, 20):
+        ts = {op[3]}
+    elif c == 5:
+        i = kind.i_dom if op[1] == 0 else 2
+        k = i - op[2]
+        ts = {op[3][k]} if 0 <= k < len(op[3]) and op[3][k] != 0 else None
+    if ts and len(ts) == 1 and None not in ts:
+        return next(iter(ts))
+    return None
+
+
+def tenant_step(rng, kind, uni, T, ps, gs):
+    """one management call (or query) naming the tenant T only"""
+    while True:
+        step = foreign_ops_aimed(rng, kind, uni, T, ps, gs, False, 0)
+        if T == 0 and any(o[0] in FILTER_CALLS or o[0] in FILTER_QUERIES for o in step):
+            continue
+        if all(o[0] >= 50 or op_tenant(kind, o) == T for o in step):
+            return step
+
+
+def related(k, D, F):
+    """does the registered function k file F's records under D's queries?"""
+    fn = mgmt.DOMAIN_MATCHERS[k]
+    if fn is None:
+        return False
+    try:
+        return bool(fn(mgmt.ATOMS.s(D), mgmt.ATOMS.s(F)))
+    except Exception:  # noqa
+        return False
+
+
+def make_case_names(rng, kind, with_fn, all_roles=True):
+    pair = list(rng.choice(NAME_PAIRS))
+    rng.shuffle(pair)
+    uni = universe(kind, pair)
+    D, F = uni.doms
+    gen = mgmt.Gen(rng, kind)
+    gen.uni = uni
+    rows = gen.rows(rng.randint(3, 10))
+    probe = name_probe(kind, uni, D, all_roles)
+    psD, gsD = _mentioned(kind, rows, [], D)
+    psF, gsF = _mentioned(kind, rows, [], F)
+    ops = []
+    k = 0
+    if with_fn and rng.random() < 0.6:
+        k = rng.choice([1, 1, 1, 3, 2])
+        ops.append((43, k))
+    if rng.random() < 0.8:
+        ops += probe
+    for _ in range(rng.randint(2, 9)):
+        x = rng.random()
+        if with_fn and x < 0.22:
+            k = rng.choice([0, 0, 0, 1, 1, 2, 3] if k else [1, 1, 1, 3, 2])
+            ops.append((43, k))
+            if rng.random() < 0.5:
+                ops += probe                                   # D's cache exists (again) before the next foreign change
+        elif x < 0.8:
+            ops += tenant_step(rng, kind, uni, F, psF, gsF)
+        else:
+            ops += tenant_step(rng, kind, uni, D, psD, gsD)
+        if rng.random() < 0.35:
+            ops += probe
+    if with_fn and k and related(k, D, F) and rng.random() < 0.8:
+        ops += probe + [(43, rng.choice([0, 0, 2]))]      # the function is taken away / replaced by one that relates nothing
+    ops += probe
+    return rows, D, F, probe, ops
+
+
+def spec_check_names(D, F, probe, impl_kwargs=None):
+    keys = {repr(tuple(op)) for op in probe}
+    impl_kwargs = impl_kwargs or {}
+
+    def spec_check(kind, rows, lf, ops, obs, impl):
+        ref_rows = [(pt, r) for pt, r in rows if rule_tenant(kind, pt, r) == D]
+        idx = [i for i, op in enumerate(ops)
+               if op[0] == 43 or (op[0] >= 50 and repr(tuple(op)) in keys) or (op[0] < 50 and op_tenant(kind, op) == D)]
+        _, ref_obs = mgmt.run_impl(kind, ref_rows, lf, [ops[i] for i in idx], **impl_kwargs)
+        k = 0
+        for j, i in enumerate(idx):
+            op = ops[i]
+            if op[0] == 43:
+                k = op[1]
+                continue
+            if op[0] < 50 or related(k, D, F):
+                continue
+            res = obs[i][0]
+            if op[0] in (70, 61, 64) and res[0] == 0:
+                for rule in res[1]:
+                    if rule[kind.i_dom] != D:
+                        return [(i, "a domain-scoped query reports a rule recorded for another domain")]
+            if res != ref_obs[j][0]:
+                return [(i, "a query in domain D differs from an enforcer that was given D's records only (no domain matching "
+                            "function relates D to the other tenant at this point)")]
+        return []
+    return spec_check
+
+
+def stratum_names(chk, kind, n, with_fn, all_roles, label):
+    rng = chk.rng
+    with_model = not with_fn and not all_roles
+    cases = []
+    n_rel = n_fn = 0
+    for _ in range(n):
+        rows, D, F, probe, ops = make_case_names(rng, kind, with_fn, all_roles)
+        sc = spec_check_names(D, F, probe)
+        sc.case_extra = dict(variant="plain", layout="names", D=D, F=F, all_roles=all_roles, model_compared=with_model,
+                             tenants=[mgmt.ATOMS.s(D), mgmt.ATOMS.s(F)])
+        cases.append((rows, True, ops, sc))
+        fns = [o[1] for o in ops if o[0] == 43]
+        n_fn += 1 if any(fns) else 0
+        n_rel += 1 if any(f and related(f, D, F) for f in fns) else 0
+    mgmt.run_cases(chk, kind, cases, None, label=label, compare_model=with_model,
+                   key_fn=lambda k, r, o: (k.name, label, repr(r), repr([x for x in o if x[0] < 50])))
+    chk.extra.setdefault("strata", {})[label.replace("-", "_")] = (
+        dict(histories=len(cases), with_a_function_registered=n_fn, function_relating_D_to_the_other_tenant_at_some_point=n_rel)
+        if with_fn else len(cases))
+
+
+def run_names(chk, n):
+    dom = mgmt.KINDS["dom"]
+    stratum_names(chk, dom, max(40, n // 3), False, False, "unusual-tenant-names-dom")
+    stratum_names(chk, dom, max(40, n // 3), False, True, "unusual-tenant-names-dom-all-roles")
+    stratum_names(chk, mgmt.KINDS["dom_deny"], max(30, n // 5), False, True, "unusual-tenant-names-dom_deny")
+    stratum_names(chk, dom, max(80, (n * 3) // 5), True, True, "matcher-phases-dom")
+    stratum_names(chk, mgmt.KINDS["dom_deny"], max(30, n // 5), True, True, "matcher-phases-dom_deny")
+
 
 # ----------------------------------------------------------------------------- conditional role links with domains
 # g = _, _, _, (_, _): a role assignment carries a domain AND parameters of a condition function registered per
@@ -777,6 +946,7 @@ def run(chk, n):
         chk.extra["strata"][f"foreign_dom_{variant}"] = len(cases)
     run_built(chk, max(100, (n * 3) // 5))
     run_tenants(chk, max(60, n // 3))
+    run_names(chk, n)
     stratum_conditional(chk, max(150, n))
 
 
@@ -796,6 +966,14 @@ def replay(chk):
         sys.exit(0)
     if "ops" not in c:
         return mgmt.replay_case(chk, None)
+    if c.get("layout") == "names":
+        w = c["kind_wire"]
+        kind = mgmt.Kind(c["kind"], *[bool(x) for x in w[:5]], eff=w[5], adapter=bool(w[6]), watcher=w[7])
+        if not c.get("model_compared"):
+            chk.oracle = None                # domain matching functions / get_all_roles_by_domain are outside the Mgmt model
+        uni = universe(kind, [c["D"], c["F"]])
+        probe = name_probe(kind, uni, c["D"], c.get("all_roles", True))
+        return mgmt.replay_case(chk, spec_check_names(c["D"], c["F"], probe))
     if c.get("layout") == "built":
         w = c["kind_wire"]
         kind = mgmt.Kind(c["kind"], *[bool(x) for x in w[:5]], eff=w[5], adapter=bool(w[6]), watcher=w[7])
@@ -849,7 +1027,17 @@ def main():
                  "interleaving records of D and of the other domain (same user -> role pair in both, different parameters / "
                  "condition functions, later parameter changes), every query of D compared with an enforcer that holds D's "
                  "records only")
-    chk.assumptions = ["no domain-matching function registered (domain patterns are C14)",
+    chk.rule += ("; tenants with unusual names (the empty string, '*', 'd*', one a prefix of the other) and a domain matching "
+                 "function (key_match, prefix, exact) registered, replaced and taken away in the middle of the history, "
+                 "interleaved with calls naming the other tenant only, calls naming D only and D-probes (incl. "
+                 "get_all_roles_by_domain): wherever no registered function relates D to the other tenant, every query of D "
+                 "is compared with an enforcer that was given D's records only")
+    chk.assumptions = ["while a registered domain-matching function fn relates D to the other tenant (fn(D, F) holds), D's queries "
+                       "are not judged (what a domain pattern grants is C14); in every other phase - no function, a function "
+                       "that does not relate D to F, after the function was taken away - the isolation spec applies",
+                       "for the tenant whose name is the empty string, calls and queries that take the domain as a FILTER value "
+                       "(remove_filtered_*, delete_roles_for_user_in_domain, get_permissions_for_user_in_domain, "
+                       "get_implicit_permissions_for_user) are left out: the API documents '' as 'any value' there",
                        "calls that are not domain-scoped by construction (delete_user, delete_role, clear_policy) are not 'calls "
                        "touching only other domains'"]
     chk.trusted = ["hand-written models coq/theories/{Policy,RoleGraph,Mgmt}.v tied by the differential history correspondence"]
